@@ -876,7 +876,7 @@ def _oracle_exact_ties(ctx: Ctx, PG, n):
         with warnings.catch_warnings():
             warnings.simplefilter("ignore")
             lg = g.get_localgrid(float(c[0]) if flat else c, r)
-        lp = np.asarray(lg.points, dtype=float).reshape(len(lg.indices), -1)
+        lp = np.asarray(lg.points, dtype=float).reshape(len(lg.indices), d)      # (0, d) for an empty local grid
         got = sorted((int(i), tuple(int(round(float(x))) for x in ((q - P[i])[:K] / np.array(lens)))) for i, q in zip(lg.indices, lp))
         # exact integer arithmetic in units of 1/8 (every number here is a multiple of 1/8)
         I = lambda x: int(round(float(x) * 8))
@@ -903,7 +903,10 @@ def oracle(ctx: Ctx, budget: str):
     M = _mods()
     PG, Grid = M["periodicgrid"].PeriodicGrid, M["basegrid"].Grid
     rng = ctx.rng
-    _oracle_exact_ties(ctx, PG, (60 if budget == "small" else 1500) * (4 if ctx.thorough else 1))
+    try:
+        _oracle_exact_ties(ctx, PG, (60 if budget == "small" else 1500) * (4 if ctx.thorough else 1))
+    except Exception as e:  # noqa: BLE001   (a crash of one part must not hide the failing inputs of the others)
+        ctx.fail("oracle", "periodicgrid.get_localgrid:raises", f"exact-tie cases: {type(e).__name__}: {str(e)[:200]}")
     # third round: exact lattices with points on cell faces / far centres / zero and denormal radii / radius = lattice
     # length, the 1.1 warning threshold, scaled cells, integer and bool points, centres 1e9 cells away, radius / spacing
     # ratios up to the cap, the singularity threshold, local grids modified by the caller
